@@ -29,7 +29,7 @@ LEVEL_TEXT = ("Lean theorems for all stored-record maps, outcome scripts, lifecy
               "(parent waits, subrefs purged) is tied, their inner pass is checked by the oracle only.")
 THEOREMS = [("Kopf.Props.C02", "Kopf.C02." + n) for n in [
     "no_rerun", "retry_kwarg", "invoked_selected_awake", "closed_iff_all_finished", "closed_purges",
-    "closed_purges_subrefs", "finished_persists", "final_outcome_recorded", "noExtras_preserved",
+    "closed_purges_skip", "closed_purges_subrefs", "finished_persists", "final_outcome_recorded", "noExtras_preserved",
     "finished_never_invoked", "once_per_cycle", "stale_view_reruns"]]
 TIE_THEOREMS = [("Kopf.Tie.C02", "Kopf.C02.Tie." + n) for n in [
     "finished_eq", "sleeping_eq", "awakened_eq", "success_eq", "failure_eq", "one_by_one_eq", "all_at_once_eq"]]
@@ -138,6 +138,8 @@ def gen_scenario(rng: Any, i: int) -> dict:
             opts["backoff"] = rng.choice([0.5, 1.0, 2.0])
         if rng.random() < 0.3:
             opts["errors"] = rng.choice(["ignored", "temporary", "permanent"])
+        if rng.random() < 0.3:
+            opts["labels"] = {"l": "1"}     # deselected/reselected by label flips in the timeline
         if kind == "delete" and rng.random() < 0.3:
             opts["optional"] = True
         if kind == "resume" and rng.random() < 0.5:
@@ -154,10 +156,13 @@ def gen_scenario(rng: Any, i: int) -> dict:
             h["script"] = ["ok"] * rng.choice([0, 1, 2, 3]) + [rng.choice(["ok", "perm", "arb", ["temp", 1.0]])]
         handlers.append(h)
     t = 1.0
-    timeline: list[list] = [[t, "create", "a", {"spec": {"x": 0}, "metadata": {"labels": {"l": "0"}}}]]
-    for n in range(rng.choice([0, 1, 2, 3])):
+    timeline: list[list] = [[t, "create", "a", {"spec": {"x": 0}, "metadata": {"labels": {"l": rng.choice(["0", "1", "1"])}}}]]
+    for n in range(rng.choice([0, 1, 2, 3, 4])):
         t += rng.choice([0.25, 1.0, 2.5, 4.0, 7.0, 12.0])
-        timeline.append([t, "edit", "a", {"spec": {"x": n + 1}}])
+        if rng.random() < 0.35:
+            timeline.append([t, "edit", "a", {"metadata": {"labels": {"l": rng.choice(["0", "1"])}}}])
+        else:
+            timeline.append([t, "edit", "a", {"spec": {"x": n + 1}}])
     if rng.random() < 0.5:
         t += rng.choice([0.5, 3.0, 9.0])
         timeline.append([t, "delete", "a"])
@@ -217,6 +222,14 @@ def oracle(ctx: Ctx, sc: dict, tr: dict) -> None:
                                 {"scenario": sc, "cycle": cyc["i"], "record": rec},
                                 {"site": "execute_handler_once", "shape": "retry kwarg != recorded retries"})
         p = cyc.get("pcc")
+        if p and p["reason"] in KINDS and not p["selected"] and "P_after" in p:
+            # the cycle is closed because nothing is selected for the cause any more: no record may remain
+            ann = _annotations_after(cyc)
+            prog = sorted(k for k in (ann or {}) if k.startswith(OWN_PREFIX) and k[len(OWN_PREFIX):] not in NON_PROGRESS_KEYS)
+            if prog:
+                ctx.oracle_fail(f"the handling cycle is closed (no handler selected any more) but progress records remain: {prog}",
+                                {"scenario": sc, "cycle": cyc["i"]},
+                                {"site": "process_changing_cause", "shape": "progress annotations left after closing by skip"})
         if not p or p["reason"] not in KINDS or not p["selected"] or p.get("outcomes") is None or "P_after" not in p:
             continue
         fin_after = {}
